@@ -15,13 +15,14 @@ import (
 // ---- facet: accessors over time values -------------------------------------------------------------
 
 type tvCase struct {
-	TV string `json:"tv"` // exact numeric literal
+	TV string `json:"tv"`           // exact numeric literal
+	TZ int    `json:"tz,omitempty"` // process-local zone, minutes east of UTC (0 = UTC)
 }
 
 func checkTV(c tvCase) harness.Outcome {
 	v := parseLit(c.TV)
 	t := m12.TimeClip(v)
-	o := harness.Outcome{Nontrivial: !plainTime(t) || v != t, Classes: []string{eraClass(t)}}
+	o := harness.Outcome{Nontrivial: !plainTime(t) || v != t || c.TZ != 0, Classes: []string{eraClass(t), zoneClass(c.TZ)}}
 	switch {
 	case math.IsNaN(v) || math.IsInf(v, 0):
 		o.Classes = append(o.Classes, "arg:non-finite")
@@ -54,12 +55,13 @@ func checkTV(c tvCase) harness.Outcome {
 		o.Excluded = []string{kTimeClip}
 		return o
 	}
-	got, bad := evalString("__snap(new Date(" + c.TV + "))")
+	var got, bad string
+	inZone(c.TZ, func() { got, bad = evalString("__snap(new Date(" + c.TV + "))") })
 	if bad != "" {
 		o.Fail = fmt.Sprintf("__snap(new Date(%s)): %s", c.TV, bad)
 		return o
 	}
-	fail, ex := compareSnap(got, t)
+	fail, ex := compareSnap(got, t, offMs(c.TZ))
 	o.Excluded = ex
 	if fail != "" {
 		o.Fail = fmt.Sprintf("d = new Date(%s): %s", c.TV, fail)
@@ -72,7 +74,7 @@ var tvFacet = harness.Register(&harness.Facet[tvCase]{
 	Rule:     "rapid: time value v for new Date(v) drawn uniformly in ±8.64e15 (25%), at day/month/year boundaries ±1..2 ms of 42 listed years incl. −271821, 0, 1582, 1900, 1970, 2038, 9999, 10000, 275760 (20%), Feb 28/29/Mar 1 of arbitrary years rounded to multiples of 4/100/400 (10%), ±8.64e15 ± {0,1,2,1000,1 day} (5%), non-integral (10%), NaN/±Inf/−0/huge (5%), ±2000 ms around the epoch (5%), uniform in 1970–2038 (20%); all 22 accessors/formatters (UTC and local, valueOf, getYear, getTimezoneOffset, toISOString, toJSON) plus Date.parse(toISOString()) and ToNumber are compared with 15.9.1.2–15.9.1.15 on TimeClip(v); non-trivial = the instant is outside 1970–2038, within 1 ms of a day boundary, invalid, or v is not already a time value; distinct by v",
 	Quick:    15000,
 	Thorough: 120000,
-	Gen:      func(t *rapid.T) tvCase { return tvCase{TV: harness.NumLit(genTV(t))} },
+	Gen:      func(t *rapid.T) tvCase { return tvCase{TV: harness.NumLit(genTV(t)), TZ: genTZ(t)} },
 	Check:    checkTV,
 })
 
@@ -87,7 +89,11 @@ var tvTable = harness.Register(&harness.Facet[tvCase]{
 
 func TestAccessorsBoundaryTable(t *testing.T) {
 	var cases []tvCase
-	add := func(v float64) { cases = append(cases, tvCase{TV: harness.NumLit(v)}) }
+	add := func(v float64) {
+		for _, tz := range []int{0, 330, -480} {
+			cases = append(cases, tvCase{TV: harness.NumLit(v), TZ: tz})
+		}
+	}
 	for _, y := range boundaryYears {
 		for m := 0; m < 12; m++ {
 			base := m12.MakeDate(m12.MakeDay(float64(y), float64(m), 1), 0)
@@ -113,6 +119,7 @@ func TestAccessorsBoundaryTable(t *testing.T) {
 type fieldsCase struct {
 	Form string   `json:"form"` // "UTC" = Date.UTC(args), "new" = new Date(args)
 	Args []string `json:"args"` // JS source of each argument
+	TZ   int      `json:"tz,omitempty"`
 }
 
 // yearFractionClass: ToInteger(year) is in 0…99 but year itself is not in [0, 99].
@@ -193,9 +200,12 @@ func composeExcluded(p m12.Parts, vals []float64, roles []int) string {
 func checkFields(c fieldsCase) harness.Outcome {
 	vals := argVals(c.Args)
 	fp := m12.FieldsParts(vals)
+	if c.Form == "new" {
+		fp.Shift = float64(offMs(c.TZ)) // 15.9.3.1 step 9: TimeClip(UTC(finalDate)); Date.UTC does not depend on the zone
+	}
 	t := m12.TimeClip(fp.Unclipped())
-	o := harness.Outcome{Classes: append([]string{"form:" + c.Form, fmt.Sprintf("nargs:%d", len(c.Args)), eraClass(t)}, compClasses(vals, allRoles)...)}
-	o.Nontrivial = !plainComps(vals, allRoles) || !plainTime(t)
+	o := harness.Outcome{Classes: append([]string{"form:" + c.Form, fmt.Sprintf("nargs:%d", len(c.Args)), eraClass(t), zoneClass(c.TZ)}, compClasses(vals, allRoles)...)}
+	o.Nontrivial = !plainComps(vals, allRoles) || !plainTime(t) || c.TZ != 0
 	for _, a := range c.Args {
 		if !strings.ContainsAny(a[:1], "-0123456789NI") {
 			o.Classes = append(o.Classes, "comp:non-number-primitive")
@@ -217,22 +227,24 @@ func checkFields(c fieldsCase) harness.Outcome {
 	args := strings.Join(c.Args, ",")
 	switch c.Form {
 	case "UTC":
-		got, bad := evalString("__e(Date.UTC(" + args + "))")
+		var got, bad string
+		inZone(c.TZ, func() { got, bad = evalString("__e(Date.UTC(" + args + "))") })
 		if bad != "" {
 			o.Fail = fmt.Sprintf("Date.UTC(%s): %s", args, bad)
 		} else if got != num(t) {
 			o.Fail = fmt.Sprintf("Date.UTC(%s) = %s, ES5 15.9.4.3 (MakeDay/MakeTime/MakeDate/TimeClip) gives %s", args, got, num(t))
 		}
 	case "new":
-		got, bad := evalString("__snap(new Date(" + args + "))")
+		var got, bad string
+		inZone(c.TZ, func() { got, bad = evalString("__snap(new Date(" + args + "))") })
 		if bad != "" {
 			o.Fail = fmt.Sprintf("__snap(new Date(%s)): %s", args, bad)
 			return o
 		}
-		fail, ex := compareSnap(got, t)
+		fail, ex := compareSnap(got, t, offMs(c.TZ))
 		o.Excluded = ex
 		if fail != "" {
-			o.Fail = fmt.Sprintf("d = new Date(%s) [LocalTZA=0]: %s (15.9.3.1)", args, fail)
+			o.Fail = fmt.Sprintf("d = new Date(%s) [LocalTZA=%d min]: %s (15.9.3.1)", args, c.TZ, fail)
 		}
 	default:
 		o.Discard = "unknown form"
@@ -248,7 +260,7 @@ var fieldsFacet = harness.Register(&harness.Facet[fieldsCase]{
 	Gen: func(t *rapid.T) fieldsCase {
 		form := pick(t, "form", []string{"UTC", "UTC", "new"})
 		n := pick(t, "nargs", []int{2, 2, 3, 3, 3, 4, 5, 6, 7, 7, 7, 8})
-		return fieldsCase{Form: form, Args: genFieldArgs(t, allRoles, n)}
+		return fieldsCase{Form: form, Args: genFieldArgs(t, allRoles, n), TZ: genTZ(t)}
 	},
 	Check: checkFields,
 })
@@ -265,6 +277,7 @@ type histOp struct {
 type histCase struct {
 	Init []string `json:"init"` // arguments of new Date(...): one time value literal, or 2–7 components
 	Ops  []histOp `json:"ops"`
+	TZ   int      `json:"tz,omitempty"`
 }
 
 func setterKey(name string) string {
@@ -272,7 +285,8 @@ func setterKey(name string) string {
 }
 
 func checkHist(c histCase) harness.Outcome {
-	o := harness.Outcome{Classes: []string{fmt.Sprintf("ops:%d", len(c.Ops))}}
+	o := harness.Outcome{Classes: []string{fmt.Sprintf("ops:%d", len(c.Ops)), zoneClass(c.TZ)}}
+	off := offMs(c.TZ)
 	// --- model
 	var t float64
 	initVals := argVals(c.Init)
@@ -286,6 +300,7 @@ func checkHist(c histCase) harness.Outcome {
 		}
 	case len(c.Init) >= 2:
 		fp := m12.FieldsParts(initVals)
+		fp.Shift = float64(off)
 		t = m12.TimeClip(fp.Unclipped())
 		initExcluded = composeExcluded(fp, initVals, allRoles)
 		if initExcluded == "" && yearFractionClass(initVals[0]) && harness.Known(kYearFrac) {
@@ -323,7 +338,16 @@ func checkHist(c histCase) harness.Outcome {
 			used = used[:max]
 		}
 		wasNaN := math.IsNaN(t)
-		sp := m12.SetParts(key, t, used)
+		// set<X> and setYear work on LocalTime(t) and store UTC(result); setUTC<X> and setTime work on t (15.9.5, B.2.5)
+		local := key != "Time" && !strings.HasPrefix(op.Name, "setUTC")
+		base := t
+		if local && !math.IsNaN(t) {
+			base = t + float64(off)
+		}
+		sp := m12.SetParts(key, base, used)
+		if local {
+			sp.Shift = float64(off)
+		}
 		u := sp.Unclipped()
 		nt := m12.TimeClip(u)
 		call := "d." + op.Name + "(" + strings.Join(op.Args, ",") + ")"
@@ -364,7 +388,7 @@ func checkHist(c histCase) harness.Outcome {
 		t = nt
 		steps = append(steps, step{want: num(t) + "," + num(t), call: call})
 	}
-	o.Nontrivial = !plain
+	o.Nontrivial = !plain || c.TZ != 0
 	o.Classes = append(o.Classes, "final:"+eraClass(t))
 	// --- otto
 	var b strings.Builder
@@ -373,7 +397,8 @@ func checkHist(c histCase) harness.Outcome {
 		b.WriteString("try{v=" + s.call + ";r.push(__e(v)+\",\"+__e(d.getTime()))}catch(x){r.push(\"throws:\"+(x&&x.name))}")
 	}
 	b.WriteString("r.push(__snap(d));return r.join(\";\")})()")
-	got, bad := evalString(b.String())
+	var got, bad string
+	inZone(c.TZ, func() { got, bad = evalString(b.String()) })
 	if bad != "" {
 		o.Fail = fmt.Sprintf("%s: %s", b.String(), bad)
 		return o
@@ -383,7 +408,7 @@ func checkHist(c histCase) harness.Outcome {
 		o.Fail = fmt.Sprintf("history returned %d entries, want %d: %q", len(parts), len(steps)+1, got)
 		return o
 	}
-	desc := "d = new Date(" + strings.Join(c.Init, ",") + ")"
+	desc := fmt.Sprintf("[LocalTZA=%d min] d = new Date(%s)", c.TZ, strings.Join(c.Init, ","))
 	for i, s := range steps {
 		desc += "; " + s.call
 		if parts[i] != s.want {
@@ -391,7 +416,7 @@ func checkHist(c histCase) harness.Outcome {
 			return o
 		}
 	}
-	fail, ex := compareSnap(parts[len(steps)], t)
+	fail, ex := compareSnap(parts[len(steps)], t, off)
 	o.Excluded = append(o.Excluded, ex...)
 	if fail != "" {
 		o.Fail = desc + ": afterwards " + fail
@@ -439,7 +464,7 @@ var histFacet = harness.Register(&harness.Facet[histCase]{
 	Quick:    15000,
 	Thorough: 120000,
 	Gen: func(t *rapid.T) histCase {
-		var c histCase
+		c := histCase{TZ: genTZ(t)}
 		switch k := int(uniInt(t, "initkind", int64(0), int64(19))); {
 		case k < 13:
 			c.Init = []string{harness.NumLit(genTV(t))}
@@ -462,7 +487,8 @@ func TestSetterHistories(t *testing.T) { histFacet.Run(t) }
 // ---- facet: Date.parse / new Date(string) on the 15.9.1.15 format -------------------------------------
 
 type isoCase struct {
-	S string `json:"s"`
+	S  string `json:"s"`
+	TZ int    `json:"tz,omitempty"`
 }
 
 func checkISO(c isoCase) harness.Outcome {
@@ -476,8 +502,8 @@ func checkISO(c isoCase) harness.Outcome {
 	hour24 := strings.Contains(c.S, "T24:")
 	hasTime := strings.Contains(c.S, "T")
 	full := len(c.S) == 24 && strings.HasSuffix(c.S, "Z") && !expanded
-	o.Nontrivial = !full || !plainTime(want)
-	o.Classes = []string{eraClass(want)}
+	o.Nontrivial = !full || !plainTime(want) || c.TZ != 0
+	o.Classes = []string{eraClass(want), zoneClass(c.TZ)}
 	add := func(b bool, s string) {
 		if b {
 			o.Classes = append(o.Classes, s)
@@ -499,7 +525,10 @@ func checkISO(c isoCase) harness.Outcome {
 		return o
 	}
 	lit := harness.JSString(c.S)
-	got, bad := evalString("__e(Date.parse(" + lit + "))+\"|\"+__e(new Date(" + lit + ").getTime())")
+	var got, bad string
+	inZone(c.TZ, func() {
+		got, bad = evalString("__e(Date.parse(" + lit + "))+\"|\"+__e(new Date(" + lit + ").getTime())")
+	})
 	if bad != "" {
 		o.Fail = fmt.Sprintf("Date.parse(%s): %s", lit, bad)
 		return o
@@ -573,7 +602,7 @@ var isoFacet = harness.Register(&harness.Facet[isoCase]{
 				s += fmt.Sprintf("%s%02d:%02d", pick(t, "osign", []string{"+", "-"}), oh, om)
 			}
 		}
-		return isoCase{S: s}
+		return isoCase{S: s, TZ: genTZ(t)}
 	},
 	Check: checkISO,
 })
